@@ -421,6 +421,34 @@ def random_counts_def(rng: random.Random) -> list:
     raise RuntimeError("could not generate a definition with counts")
 
 
+def counts_family() -> list[list]:
+    """Deterministic family beyond F: one event type on several branches of an AND/OR fork
+    (first or last event of the branches), so that successor / predecessor sets carry counts
+    > 1 - for OR forks different counts in different jobs over the SAME set of types.  At top
+    level, inside an XOR branch and inside a loop."""
+    out = []
+    for kind in ("or", "and"):
+        for nb in (2, 3):
+            for where in ("start", "end", "only"):
+                for ctx in ("top", "xor", "loop"):
+                    nm = _Names()
+                    first = nm()
+                    if where == "only":
+                        br = [[("ev", "SAME")] for _ in range(nb)]
+                    elif where == "start":
+                        br = [[("ev", "SAME"), nm()] for _ in range(nb)]
+                    else:
+                        br = [[nm(), ("ev", "SAME")] for _ in range(nb)]
+                    fork = (kind, br)
+                    if ctx == "top":
+                        out.append([first, fork, nm()])
+                    elif ctx == "xor":
+                        out.append([first, ("xor", [[nm(), fork, nm()], [nm()]]), nm()])
+                    else:
+                        out.append([first, ("loop", [nm(), fork, nm()]), nm()])
+    return out
+
+
 def random_start_block(rng: random.Random) -> list:
     """Beyond fragment F: inside a loop, a fork branch that starts directly with a block (its
     leading event removed), e.g. A; repeat{ N; xor{ X,break | fork{P}{Q}; J } }; D.  Used by C07
